@@ -429,6 +429,24 @@ theorem fingerprint_b_partial (q q' : Net) (h : fingerprint true q = fingerprint
       exact (perm_isort _ _).append ih
   exact (h1 _).symm.trans ((List.Perm.flatten hp).trans (h1 _))
 
+/-- … in particular, for contractions without index-free tensors, the number of tensors is
+    determined by the `b`-key, so a stored *path* that is complete for one is complete for the
+    other (scores and sliced labels are not covered: see the counter-example).  Without the
+    side condition even this fails: `('a','a')` and `('a','a','')` share a `b`-key. -/
+theorem fingerprint_b_partial_path (q q' : Net) (h : fingerprint true q = fingerprint true q')
+    (hq : ∀ t ∈ q.inputs, t ≠ []) (hq' : ∀ t ∈ q'.inputs, t ≠ []) (path : List (List Nat)) :
+    q.inputs.length = q'.inputs.length ∧
+    validPath q.inputs.length path = validPath q'.inputs.length path := by
+  simp only [fingerprint, if_true, Fp.b.injEq] at h
+  have hn := fpB_same_N q q' h hq hq'
+  exact ⟨hn, by rw [hn]⟩
+
+/-- the side condition is needed: an index-free tensor is invisible to method `b` -/
+theorem fingerprint_b_scalar_counterexample :
+    fingerprint true { inputs := [[0], [0]], output := [], sizes := [(0, 2)] } =
+      fingerprint true { inputs := [[0], [0], []], output := [], sizes := [(0, 2)] } := by
+  decide
+
 /-! ## non-vacuity -/
 
 /-- `ab,bc->ac` and `ba,cb->ca`: same key under `a` (order inside terms/output is ignored) -/
